@@ -133,9 +133,14 @@ Definition check_law (p : Z) (code : Z) (fs : list float) : bool :=
           | _ => false
           end
   | 11 => match fs with
-          | reg :: s0 :: rest =>
+          | [reg; s0; s_start; s_trans; s_rot; s_scale; m] =>
             let tol := 0x1p-30%float in
-            forallb (fun s => (- tol <=? s)%float && (s <=? 1 + tol)%float && (PrimFloat.abs (s - s0) <=? tol)%float) (s0 :: rest) &&
+            (* a translation by m leaves coordinates known to m * 2^-53 only: the angles of a polygon of diameter 4
+               (sides above 1/2) move by a few m * 2^-52, hence "up to rounding" is relative to m for that image *)
+            let tol_t := (tol + PrimFloat.abs m * 0x1p-44)%float in
+            forallb (fun s => (- tol <=? s)%float && (s <=? 1 + tol)%float && (PrimFloat.abs (s - s0) <=? tol)%float)
+                    [s0; s_start; s_rot; s_scale] &&
+            (- tol_t <=? s_trans)%float && (s_trans <=? 1 + tol_t)%float && (PrimFloat.abs (s_trans - s0) <=? tol_t)%float &&
             (fzero_any reg || (PrimFloat.abs s0 <=? tol)%float)
           | _ => false
           end
